@@ -385,6 +385,26 @@ func ruleExactTruncation(min int) func(p *Prog, l *Ledger, tier string) {
 					l.Prove(rule, name, key, pos, "operand of the truncation is "+c.String()+": an exact integer or a single correctly rounded quotient/decimal")
 				}
 			}
+			// R3: division by an integer quotient whose own divisor is not a constant: a / (b / c) uses a
+			// truncated unit (time.Second / framerate is 33 333 333 ns at 30 fps, not 1e9/30)
+			for _, b := range fn.Blocks {
+				for _, ins := range b.Instrs {
+					d, ok := ins.(*ssa.BinOp)
+					if !ok || d.Op != token.QUO || !isIntegerT(d.Type()) {
+						continue
+					}
+					q, ok := stripConv(d.Y).(*ssa.BinOp)
+					if !ok || q.Op != token.QUO || !isIntegerT(q.Type()) {
+						continue
+					}
+					if _, isC := constInt(q.Y); isC {
+						continue
+					}
+					n++
+					key := l.Key(rule, name, "quotient-as-divisor", descOf(q.Y))
+					l.Fail(rule, name, key, p.Pos(d.Pos()), fmt.Sprintf("%s divides by an integer quotient (… / %s) that has already dropped its remainder: the unit is too short whenever %s does not divide the dividend, so values just below a multiple of the true unit land in the next slot (a frame number equal to the frame rate, a timestamp later than the instant)", name, descOf(q.Y), descOf(q.Y)))
+				}
+			}
 			// R2: integer quotient scaled up afterwards
 			for _, b := range fn.Blocks {
 				for _, ins := range b.Instrs {
